@@ -642,7 +642,19 @@ private:
             log_event(StructuredLogger::Level::Info,
                       "control.connection.accepted",
                       {{"remote", remote_address}});
-            handle_client(client, remote_address);
+            try {
+                handle_client(client, remote_address);
+            } catch (const std::exception& ex) {
+                // A request must never take the control thread (and with it the daemon) down.
+                log_event(StructuredLogger::Level::Error,
+                          "control.request.exception",
+                          {{"remote", remote_address}, {"what", ex.what()}});
+                send_response(client,
+                              make_error("ERR_CONTROL_INTERNAL",
+                                         "Request could not be processed",
+                                         "Check the daemon log for details"),
+                              false);
+            }
             close_socket(client);
         }
     }
@@ -1270,7 +1282,18 @@ private:
 
         std::optional<std::filesystem::path> output_path;
         if (const auto out_it = fields.find("OUT"); out_it != fields.end()) {
-            output_path = std::filesystem::absolute(std::filesystem::path(out_it->second));
+            std::error_code path_error;
+            const auto absolute_path = out_it->second.empty()
+                                           ? std::filesystem::path{}
+                                           : std::filesystem::absolute(std::filesystem::path(out_it->second), path_error);
+            if (out_it->second.empty() || path_error || absolute_path.empty()) {
+                auto error = make_error("ERR_FETCH_OUT_INVALID",
+                                        "OUT is not a usable path",
+                                        "Provide a non-empty destination path");
+                respond_error(std::move(error), "destination_invalid");
+                return;
+            }
+            output_path = absolute_path;
         }
 
         bool stream_to_client = false;
